@@ -348,6 +348,7 @@ def run(ck):
         ck.verdict(not direct, "6", "T3-must-precede", b2, "callback-only-inside-inner-callback", "the user callback is only invoked from the closure handed to the inner source", "the wrapper invokes the user callback outside the closure it hands to its inner source: the inner source's token guard no longer protects it (a disabled / foreign event reaches the callback)", site=b2.where(direct[0].bb) if direct else b2.where())
     import_n = common.import_results(ck, __import__("props.C05", fromlist=["x"]), "5", "Timer", "5")
     common.import_results(ck, __import__("props.C05", fromlist=["x"]), "6", "Timer", "5")
+    common.import_results(ck, __import__("props.C05", fromlist=["x"]), "4", "Timer", "5")
     ck.floor("6", "wrapper process_events forwarding sites", n, 8 if ck.has("executor") and ck.has("stream") and ck.has("signals") else 5)
 
     token_factory_rules(ck, "7")
